@@ -862,8 +862,18 @@ pub fn gen_scenario(rng: &mut Rng, miri: bool, long: bool) -> Scenario {
 
 /// `thorough`: up to 40 record sets in the ordinary scenarios instead of 12
 pub fn gen_scenario_t(rng: &mut Rng, miri: bool, long: bool, thorough: bool) -> Scenario {
-    let threads = 1 + rng.below(if miri { 3 } else { 8 }) as u32;
-    let queue = 1 + rng.below(4);
+    let mut threads = 1 + rng.below(if miri { 3 } else { 8 }) as u32;
+    let mut queue = 1 + rng.below(4);
+    if !miri && !long {
+        // "every thread count >= 1 and every queue length >= 1": now and then far more workers than
+        // cores or sets, and long queues
+        if rng.chance(1, 40) {
+            threads = *rng.pick(&[12u32, 16, 24, 33, 64]);
+        }
+        if rng.chance(1, 40) {
+            queue = *rng.pick(&[5usize, 8, 13, 16, 33]);
+        }
+    }
     let n = if miri {
         rng.below(5)
     } else if long {
@@ -1584,7 +1594,7 @@ pub fn gen_real(rng: &mut Rng, miri: bool, tag: u64, big: bool) -> RealScenario 
         4 => Api::ParallelRecords,
         _ => Api::ReadParallel,
     };
-    let queue = 1 + rng.below(4);
+    let queue = if !miri && !big && rng.chance(1, 40) { *rng.pick(&[5usize, 8, 16, 33]) } else { 1 + rng.below(4) };
     let init_fail = if api == Api::PerRecordInit && !big {
         match rng.below(10) {
             0 => RealInitFail::Reader,
@@ -1602,7 +1612,7 @@ pub fn gen_real(rng: &mut Rng, miri: bool, tag: u64, big: bool) -> RealScenario 
         has_error,
         cap,
         chunk: *rng.pick(&[1usize, 7, 64, 100_000]),
-        threads: 1 + rng.below(if miri { 3 } else { 8 }) as u32,
+        threads: if !miri && !big && rng.chance(1, 40) { *rng.pick(&[12u32, 16, 33, 64]) } else { 1 + rng.below(if miri { 3 } else { 8 }) as u32 },
         queue,
         api,
         stop_after: if rng.chance(1, 4) { Some(rng.below(n + 2)) } else { None },
